@@ -88,6 +88,28 @@ def lint_coq():
                 depth -= 1
             elif re.match(r"^(Variable|Variables|Hypothesis|Hypotheses|Context)\b", s) and depth == 0:
                 problems.append("%s:%d: %s outside a Section" % (rel, n, s.split()[0]))
+    # a double quote inside a comment opens a string in which "*)" does not end the comment: the rest of the file
+    # would silently become a comment (and its theorems vanish). Require balanced quotes inside every comment.
+    for path in sorted(glob.glob(os.path.join(COQ, "**", "*.v"), recursive=True)):
+        raw = open(path, encoding="utf-8").read()
+        depth, i, quotes, start = 0, 0, 0, 0
+        while i < len(raw):
+            if raw.startswith("(*", i):
+                if depth == 0:
+                    quotes, start = 0, raw.count("\n", 0, i) + 1
+                depth += 1
+                i += 2
+            elif raw.startswith("*)", i) and depth > 0:
+                depth -= 1
+                i += 2
+                if depth == 0 and quotes % 2 == 1:
+                    problems.append("%s:%d: odd number of double quotes inside a comment" % (os.path.relpath(path, COQ), start))
+            else:
+                if depth > 0 and raw[i] == '"':
+                    quotes += 1
+                i += 1
+        if depth != 0:
+            problems.append("%s: unterminated comment" % os.path.relpath(path, COQ))
     proj = open(os.path.join(COQ, "_CoqProject")).read()
     if re.search(r"type-in-type|impredicative-set|-vos|-vok|-noinit", proj):
         problems.append("_CoqProject: forbidden flag")
